@@ -196,6 +196,17 @@ C14Session(e) == e.ev = "sess" =>
          /\ e.ok = (TypeOf(e.rec.ptype, e.rec.stype) # "undefined")
          /\ (~e.ok \/ e.type = TypeOf(e.rec.ptype, e.rec.stype))
          /\ (e.reply.m.sid = -1 \/ (e.rbuilt /\ e.rbytes = Wire(SessHdr(e.reply.m)))))
+\* behaviours of HsmsApp replayed with the library in the role of an application (driver app): every data message is a
+\* round-trip event with the model's message and bytes (PropExpect); control messages, and what the receiver sees:
+\* the frame the model sent, accepted, decoded to the model's message, classified by Type()
+AppCtl(e) == e.ev = "appctl" => (e.built /\ e.bytes = e.expect /\ e.type = TypeOf(e.expect[9], e.expect[10]))
+AppRecv(e) == e.ev = "apprecv" =>
+   LET r == DecMsg(e.expect) IN
+   /\ ~e.desync /\ e.bytes = e.expect
+   /\ r.ok /\ e.ok /\ RecOf(e.msg2) = r.msg
+   /\ e.type = (IF r.msg.kind = "ctrl" THEN TypeOf(r.msg.hdr[5], r.msg.hdr[6]) ELSE "data message")
+AppBuilt(e) == e.ev # "appfail"                 \* the library made every message the protocol asked for
+PropApp(e) == AppRecv(e) /\ AppBuilt(e)
 \* a request constructor given more than four system bytes refuses, or yields a 14-byte message like any other (its
 \* system bytes four consecutive ones of those given) that decodes to an equal message
 C14Over(e) == e.ev = "sysover" =>
@@ -203,7 +214,7 @@ C14Over(e) == e.ev = "sysover" =>
                  /\ Len(e.bytes) = 14 /\ SubSeq(e.bytes, 1, 10) = SubSeq(want, 1, 10)
                  /\ \E k \in 0..(Len(e.sys) - 4) : SubSeq(e.bytes, 11, 14) = SubSeq(e.sys, k + 1, k + 4)
                  /\ e.type = e.kind /\ e.ok /\ e.same)
-PropC14(e) == C14Case(e) /\ C14Type(e) /\ C14Sid(e) /\ C14Code(e) /\ C14Pairing(e) /\ C14Raw(e) /\ C14Session(e) /\ C14Over(e)
+PropC14(e) == C14Case(e) /\ C14Type(e) /\ C14Sid(e) /\ C14Code(e) /\ C14Pairing(e) /\ C14Raw(e) /\ C14Session(e) /\ C14Over(e) /\ AppCtl(e)
 
 \* ------------------------------------------------------------------ model agreement (drift only)
 AgreeDecoder(e) == e.ev \in {"rt", "dec"} =>
@@ -245,6 +256,7 @@ PropRoute(e) == e.ev = "bigroute" =>
                     /\ SubSeq(e.head, wrap + 1, wrap + Len(ItemHeader(16, e.n))) = ItemHeader(16, e.n))
    ELSE /\ e.built = Constructible(0, e.n)
         /\ e.built => e.enclen = 2 + Len(ItemHeader(0, e.n)) + 3 * e.n + 3
+InvApp == l > 0 => PropApp(E)
 InvSeq == l > 0 => PropSeq(E) /\ PropFlat(E) /\ PropRoute(E)
 InvExpect == l > 0 => PropExpect(E)
 InvC01 == l > 0 => PropC01(E)
